@@ -11,24 +11,24 @@ import (
 
 // GenCfg parameterises the case generator of one property.
 type GenCfg struct {
-	Slabs    []uint32       // slab sizes to choose from
-	SlabAny  bool           // thorough: also uniform in [256, 32768]
-	MinOps   int
-	MaxOps   int
-	W        map[string]int // op weights
-	Roots    [][]RootSpec   // alternatives for the initial roots
-	MaxBulk  int
-	Keys     []int          // key-universe sizes
-	ValW     map[string]int // value kind weights: u, s0..s7, some, arr, map, cmap
-	MaxDepth int            // nesting depth of generated container values
-	MaxElems int            // initial elements of generated containers
-	Keep     int            // percentage of removals that keep the handed-back container (C11)
-	AcqW     [3]int         // weights of handle acquisition modes 0,1,2
-	CollLimits []uint32     // C12
-	NondetPct int
-	DigRoots  bool // C12: one root map with a generated digester
-	DigRootsPct int // percentage of cases whose root maps get a generated digester
-	HipGroupsPct int // percentage of cases with a colliding hash-input provider (default digester collisions)
+	Slabs        []uint32 // slab sizes to choose from
+	SlabAny      bool     // thorough: also uniform in [256, 32768]
+	MinOps       int
+	MaxOps       int
+	W            map[string]int // op weights
+	Roots        [][]RootSpec   // alternatives for the initial roots
+	MaxBulk      int
+	Keys         []int          // key-universe sizes
+	ValW         map[string]int // value kind weights: u, s0..s7, some, arr, map, cmap
+	MaxDepth     int            // nesting depth of generated container values
+	MaxElems     int            // initial elements of generated containers
+	Keep         int            // percentage of removals that keep the handed-back container (C11)
+	AcqW         [3]int         // weights of handle acquisition modes 0,1,2
+	CollLimits   []uint32       // C12
+	NondetPct    int
+	DigRoots     bool // C12: one root map with a generated digester
+	DigRootsPct  int  // percentage of cases whose root maps get a generated digester
+	HipGroupsPct int  // percentage of cases with a colliding hash-input provider (default digester collisions)
 }
 
 func weighted(t *rapid.T, w map[string]int, label string) string {
